@@ -233,6 +233,19 @@ def base_messages():
     out.append(("notify", enc_header(1, 0x2400, 1, 0, 0, 0) + enc_q(enc_name("example."), 6, 1), {}, []))
     out.append(("opcode15", enc_header(1, 0x7800, 1, 0, 0, 0) + enc_q(ex, 1, 1), {}, []))
     out.append(("tc", enc_header(1, 0x8380, 1, 1, 0, 0) + enc_q(ex, 16, 1) + enc_rr(b"\xc0\x0c", 16, 1, 5, b"\x02hi\x00"), {}, []))
+    # M10 text-bearing rdata (URI target, TXT, CAA value) for the rendering clause
+    out.append(
+        (
+            "textual",
+            enc_header(3, 0x8180, 1, 3, 0, 0)
+            + enc_q(ex, 256, 1)
+            + enc_rr(b"\xc0\x0c", 256, 1, 60, struct.pack("!HH", 10, 1) + b"ftp://x/y")
+            + enc_rr(b"\xc0\x0c", 16, 1, 60, b"\x03a\"b\x00")
+            + enc_rr(b"\xc0\x0c", 257, 1, 60, b"\x00\x05issuea.b"),
+            {},
+            [],
+        )
+    )
     # M9 records of several types with covered types (RRSIG), same owner
     sigrd = struct.pack("!HBBIIIH", 1, 8, 2, 300, 1577836800, 1041379200, 4660) + enc_name("example.") + b"\x01" * 16
     out.append(
